@@ -556,8 +556,10 @@ class PeriodicCondition(Condition):
             self.periodic_interval.boundary_right, n_points=n_points
         ).make_static()
 
-        tmp_left_sampler = self.left_sampler * self.non_periodic_sampler
-        tmp_right_sampler = self.right_sampler * self.non_periodic_sampler
+        # forward() pairs the i-th boundary point with the i-th non periodic point,
+        # so the data functions have to be evaluated on the same (row wise) pairing
+        tmp_left_sampler = self.left_sampler.append(self.non_periodic_sampler)
+        tmp_right_sampler = self.right_sampler.append(self.non_periodic_sampler)
         if self.non_periodic_sampler.is_static:
             tmp_left_sampler = tmp_left_sampler.make_static()
             tmp_right_sampler = tmp_right_sampler.make_static()
